@@ -224,7 +224,8 @@ def do_replay(ctx):
     # the constructor of the echo contract needs canonical arguments of its own type: reuse the recorded base when
     # it is the 1-tuple encoding, else deploy with the input itself
     res = H.run_job((d["source"], cfg, [bytes.fromhex(d.get("ctor_base", d["canonical_base"]))],
-                     [[(d["entry"], bytes.fromhex(d["input_hex"]))]], [bytes.fromhex(x) for x in d.get("kwsel", [])]))
+                     [[(d["entry"], bytes.fromhex(d["input_hex"]))]], [bytes.fromhex(x) for x in d.get("kwsel", [])],
+                     None, [bytes.fromhex(d.get("xargs_hex", ""))]))
     if res["error"]:
         ctx.violation("correspondence-broken", "replay could not run: " + res["error"][:200], d)
         return
@@ -458,7 +459,8 @@ def run(ctx):
         from vlib.c06_exits import selector, sig
         kwsel = [selector(sig("kw", [t])), selector(sig("kw", [t, ("uint", 8)])), selector(sig("kw", [t, ("uint", 8), ("bytes", 4)]))]
         for cfg in chosen:
-            jobs.append((src, cfg, bl, inputs, kwsel, t, [xvs[k0 + i] for i in range(len(vals))]))
+            jobs.append((src, cfg, bl, inputs, kwsel, t,
+                         [A.py_enc(("tuple", (("address",), t)), [0, xvs[k0 + i]], 0)[32:] for i in range(len(vals))]))
             jm.append((t, vals, src, cfg, metas, bl, kwsel, k0))
     t0 = time.time()
     with ProcessPoolExecutor(max_workers=4) as ex:
@@ -518,7 +520,8 @@ def run(ctx):
                 detail = {"source": src, "config": cfg.name, "entry": kind, "how": how, "type": A.eth_ty(t),
                           "value": repr(vals[vi]), "corruption": cterm, "input_hex": data.hex(),
                           "model": exp[:300], "observed_ok": ok, "observed_out": out.hex() if isinstance(out, bytes) else out,
-                          "canonical_base": base_for.hex(), "ctor_base": bl[vi].hex(), "kwsel": [x.hex() for x in kwsel]}
+                          "canonical_base": base_for.hex(), "ctor_base": bl[vi].hex(), "kwsel": [x.hex() for x in kwsel],
+                          "xargs_hex": jobs[ji][6][vi].hex()}
                 ctx.violation("failing-input" if verdict == "failing" else "correspondence-broken", f"{kind}: {text}", detail)
     # ---- constructor arguments, exact: expectation from the REAL init code of each build
     groups = {}
@@ -602,4 +605,6 @@ def run(ctx):
     ctx.trusted += ["Coq 8.16.1 kernel + vm_compute", "pyrevm (EVM)", "hand model of needs_clamp (compared with both copies each run)"]
     ctx.assumptions += ["echoed values are observed through the encoder (C06): a decoder defect masked by an equal and "
                         "opposite encoder defect would be missed",
-                        "constructor arguments are checked one-directionally (argument base inside init code not modelled)"]
+                        "constructor arguments: exact oracle accept_ctor with base = |initcode| (entry ctorx, initcode length observed); "
+                        "the extra lenient ctor stream is one-directional (accept => model accepts)",
+                        "returndata entry points: the callee is a hand-assembled returner that returns exactly the corrupted bytes"]
